@@ -45,6 +45,8 @@ pub struct View {
     pub pairs: Pairs,
     pub into_iter_pairs: Option<Pairs>,
     pub encoded: Vec<u8>,
+    /// `Encodable::length()` — what alloy-rlp uses to frame a record inside a list
+    pub enc_length: Option<usize>,
     pub size: Option<usize>,
     pub verify: Option<bool>,
     pub pk_enc: Option<Vec<u8>>,
@@ -127,6 +129,7 @@ pub fn inspect<K: EnrKey>(e: &Enr<K>, deep: bool) -> View {
     v.pairs = guard("iter", || pairs_of(e)).unwrap_or_default();
     v.encoded = guard("encode", || alloy_rlp::encode(e)).unwrap_or_default();
     v.size = guard("size", || e.size());
+    v.enc_length = guard("Encodable::length", || alloy_rlp::Encodable::length(e));
     v.verify = guard("verify", || e.verify());
     v.pk_enc = guard("public_key().encode", || {
         e.public_key().encode().as_ref().to_vec()
